@@ -38,5 +38,9 @@ func RemoveAccentsFromString(v string) string {
 		}
 		p = norm.NFC.String(b.String())
 	}
+	if len(p) == 0 && len(v) > 0 {
+		// nothing but nonspacing marks: every character was dropped
+		p = "_"
+	}
 	return p
 }
